@@ -12,7 +12,7 @@ S=$W/seed
 DEMODIR=$(python3 -c "import json;print(json.load(open('$S/meta.json'))['demo_dir'])")
 cd $W || exit 3
 git checkout -q -- . && git status --short | grep -v '^?? seed/' | head
-baseline() { go test -vet=off -count=1 $(go list ./... | grep -v '/seed$') 2>&1 | grep -E '^(ok|FAIL|---)' | sed -E 's/[0-9.]+s$//' | sort; }
+baseline() { go test -vet=off -count=1 $(go list ./... | grep -v '/seed$') 2>&1 | grep -E '^(ok|FAIL|---)' | sed -E 's/\(?[0-9.]+s\)?$//' | sort; }
 echo "-- baseline tests"; baseline > /tmp/seed-base-$$.txt
 cp $S/demo_test.go $W/$DEMODIR/zz_seed_demo_test.go
 echo "-- demo without patch (must pass)"
